@@ -177,9 +177,13 @@ func H_C04_graph() {
 	vStepLimit(400000)
 	var bs []byte
 	var err error
-	if vChoice("api", 2) == 0 {
+	switch api := vChoice("api", 3); {
+	case api == 0:
 		bs, err = ToBytes(root, nameMap)
-	} else {
+	case api == 2:
+		// without registered list names every list travels untyped and is converted on the way back
+		bs, err = ToBytes(root, nil)
+	default:
 		// the second message of a reused serializer that has already sent the same objects
 		s := NewSerializer(typMap, nameMap)
 		_, err = s.ToBytes(nodes[k-1])
